@@ -22,6 +22,7 @@ func checkC17(r *Report, p *Program) {
 	r17_3(r, p)
 	revisionCopies(r, p, "R17.1b")
 	keyCompleteness(r, p, "R17.5")
+	checkThenAct(r, p, "R17.4")
 }
 
 func cacheTaint(p *Program) *engine.Taint {
